@@ -1,12 +1,13 @@
 """C15 — every command emits the prescribed MIDI message: exhaustive sweeps through the real code."""
-from ..core import Stream, hx
+from ..core import Stream, hx, run_oracle, parse_resp
 from tools import gen_tables
 
 RULE = ("sweep: every command/alias row of the regenerated system-function table in the classes controller / RPN / NRPN / text / tempo / "
         "time signature / voice / pitch bend / reset / master / GS effect, plus y, @, p and every voice.md name, compiled as a one-command "
         "program by the real code for every value of its domain (7-bit exhaustive; 14-bit, tempo 1..400, voices 1..128 exhaustive in the "
         "thorough tier, strided in quick); the decoded real bytes must be exactly the messages of Spec.Messages (hand-written from the MIDI "
-        "standard). non-trivial = distinct (command, decoded message) pairs")
+        "standard). context: the same one-command programs after music that leaves per-track state behind (slurs, earlier settings of the same parameter, "
+        "other channel/track) must add exactly the events they add after a silent prefix reaching the same track, channel and time. non-trivial = distinct (command, decoded message) pairs")
 ASSUMPTIONS = ["text payloads are written without quotes (`TrackName{abc}`); characters the sutoton preprocessor rewrites are not used in payloads",
                "values outside the documented domain are only required to be clamped into 7 bits"]
 TRUSTED = ["Spec.Messages tables (controller numbers, RPN/NRPN addresses, meta types, reset strings) are my transcription of the MIDI/GM/GS/XG documents"]
@@ -21,14 +22,16 @@ def streams(tier, rng, P, only=None, cases=None):
     def add(name, src, args=(), txt="", key=None):
         cs.append(dict(req="run " + hx(src), src=src, show=src, name=name, args=list(args), txt=txt, key=key or src))
     def vals7():
-        return list(range(128)) if big else sorted(set(list(range(0, 128, 9)) + [0, 1, 63, 64, 126, 127]))
+        return list(range(128)) if big else sorted(set(list(range(0, 128, 9)) + [0, 1, 2, 12, 24, 63, 64, 126, 127]))
     for r in rows:
         n, tt = r["name"], r["tt"]
         if tt == "ControlChangeCommand":
             for v in vals7(): add(n, "%s(%d)" % (n, v), [v])
             add(n, "%s=%d" % (n, 77), [77]); add(n, "%s(200)" % n, [200])
         elif tt in ("RPNCommand", "NRPNCommand"):
-            for v in vals7(): add(n, "%s(%d)" % (n, v), [v])
+            for v in vals7():
+                add(n, "%s(%d)" % (n, v), [v])
+                if v in (0, 2, 12, 24, 64): cs[-1]["ctx"] = True      # values a device (or a slur) may already have set: always part of the context stream
         elif tt == "MetaText":
             lens = range(0, 201) if big else list(range(0, 12)) + [60, 126, 127, 128, 129, 200]
             for L in lens:
@@ -81,4 +84,49 @@ def streams(tier, rng, P, only=None, cases=None):
     def nt(c, impl, m):
         return (c["name"], impl[1].get("bin")) if impl[0] == "ok" and m and "note=" not in m[0] else None
     s1 = Stream("sweep", cases if (cases and only == "sweep") else cs, model, judge, nt, "one-command programs over each command's domain")
-    return [s for s in (s1,) if only in (None, s.name)]
+    # ---- context: the same commands after music that leaves per-track state behind (a slur, earlier settings of the same parameter, another
+    #      channel, another track).  The events the command adds must be the ones it adds after a silent prefix reaching the same track,
+    #      channel and time (which the sweep judges against Spec.Messages).
+    def mk_ctx():
+        prefixes = ["l4 c&e c", "Slur(1,0) c&d e", "Slur(0,48) l8 c&g&c d", "CH(3) c", "TR(2) CH(5) r4", "c d e", "y1,5 r8", "@5 c", "Tempo(90) r", "BR(2) c", "BR(12) c",
+                    "PitchBend(100) c", "M(10) c", "TR(3) l4 c&e c CH(2)", "%CMD% r", "%CMD% %CMD%", "l4 c&e c %CMD% r"]
+        sample = list(cs) if big else rng.sample(cs, min(len(cs), 400))
+        if big and len(sample) > 6000: sample = rng.sample(sample, 6000)
+        plan = []
+        for c in sample:
+            pre = rng.choice(prefixes).replace("%CMD%", c["src"].strip())
+            plan.append((c, pre))
+        for c in cs:
+            if c.get("ctx"):
+                for pre in ("l4 c&e c", "Slur(1,0) c&d e", "TR(3) l4 c&e c CH(2)", "%CMD% r", "BR(2) c"):
+                    plan.append((c, pre.replace("%CMD%", c["src"].strip())))
+        uniq = sorted(set(pre for _, pre in plan))
+        info = {}
+        for pre, line in zip(uniq, run_oracle(P, ["run " + hx(pre) for pre in uniq], tag="c15pre")):
+            st, f = parse_resp(line)
+            if st != "ok": continue
+            cur = int(f["cur"]); trs = f["tracks"].split(";"); sts = f["state"].split(";")
+            if cur >= len(trs): continue
+            n = 0 if trs[cur] in ("~", "") else len(trs[cur].split(","))
+            kv = dict(x.split(":") for x in sts[cur].split(","))
+            info[pre] = (cur, n, int(kv["tp"]), int(kv["ch"]))
+        out = []
+        for i, (c, pre) in enumerate(plan):
+            if pre not in info: continue
+            cur, n, tp, ch = info[pre]
+            a = pre + " " + c["src"]
+            b = "TR(%d) CH(%d)%s %s" % (cur, ch + 1, (" r%%%d" % tp) if tp > 0 else "", c["src"])
+            out.append(dict(req="run2 %s %s" % (hx(a), hx(b)), src=a, ref=b, show="%s   vs   %s" % (a, b), cur=cur, n=n, name=c["name"], key="x%d" % i))
+        return out
+    def ctx_judge(c, impl, m):
+        st, f = impl
+        if st != "ok": return ("violation", "command did not compile normally after a prefix: %s" % st)
+        t1 = f["tracks1"].split(";"); t2 = f["tracks2"].split(";")
+        e1 = [] if c["cur"] >= len(t1) or t1[c["cur"]] in ("~", "") else t1[c["cur"]].split(",")
+        e2 = [] if c["cur"] >= len(t2) or t2[c["cur"]] in ("~", "") else t2[c["cur"]].split(",")
+        if e1[c["n"]:] != e2:
+            return ("violation", "after the prefix the command adds %s, on a fresh track at the same position it adds %s" % (e1[c["n"]:][:6], e2[:6]))
+        return None
+    s2 = Stream("context", cases if (cases and only == "context") else mk_ctx(), lambda c, st, f: [], ctx_judge,
+                lambda c, i, m: (c["name"], c["src"][:12]) if i[0] == "ok" else None, "commands after state-leaving music vs after a silent prefix")
+    return [s for s in (s1, s2) if only in (None, s.name)]
